@@ -289,10 +289,10 @@ PROPS = {
         "level_note": "The OS scheduler and the queue implementation are outside of the logic: the queue contract (exactly-once delivery, arbitrary order) is an "
                       "assumption, under which the order-sensitive sequential code is proved for every delivery order. Parallel forward finite differences "
                       "(FirstOrderFD._compute_parallel_grad, contracts/c16_approx.py) and the parallel complex step (ComplexStep._compute_parallel_grad, contracts/c16_complex.py) are proved to return exactly the quotients of the sequential _compute_grad (same "
-                      "postcondition, which determines the result) through the positional summary of execute. Other consequences for DOE / chains / "
+                      "postcondition, which determines the result) through the positional summary of execute. Shared full caches (\"including when workers share a cache\"): the per-operation contracts of BaseFullCache / MemoryFullCache (contracts/c05_full_cache.py, also C05) state every operation over the WHOLE abstract store for an arbitrary prior history - cache_outputs / cache_jacobian address the entry whose inputs match, whatever entry another worker created or accessed last - so that any interleaving of the operations of several workers (each operation atomic under the cache lock, assumed) yields the store of a sequential execution of the same operations. Other consequences for DOE / chains / "
                       "linearization / the other derivative approximators are not under contract yet.",
         "design_ref": "DESIGN.md §4 C13",
-        "modules": ["contracts.c13_parallel", "contracts.c16_approx", "contracts.c16_complex"],
+        "modules": ["contracts.c13_parallel", "contracts.c16_approx", "contracts.c16_complex", "contracts.c05_full_cache"],
         "assumptions": [
             "queue contract: every item put in a queue is delivered exactly once, to exactly one getter, in an arbitrary order; every started worker runs "
             "_execute_workers to completion (fairness/termination of the scheduler)",
@@ -302,7 +302,7 @@ PROPS = {
             "POSIX platform; a process named 'subprocess' is a (daemonic) gemseo worker",
         ],
         "not_covered": ["_check_unicity (set cardinality)", "parallel DOE / DiscParallelExecution / DiscParallelLinearization / parallel centered differences, compute_optimal_step",
-                        "shared caches and locks under true concurrency", "pickling of workers and data (C20)"],
+                        "the lock protocol of shared caches under true concurrency (each cache operation is treated as atomic)", "pickling of workers and data (C20)"],
     },
     "C08": {
         "level_text": "Proof (all inputs, unbounded number of disciplines) that DependencyGraph builds the dependency graph of the name sets, that the "
